@@ -10,6 +10,11 @@ package api
 //	http  httptest.Server around the same bound router (real net/http server, no server time-outs)
 //	api   Server.Start() on a free loopback port (includes engine.withTimeout's http.Server settings)
 //
+// Scenarios whose configuration has no time-out guard are served by a second engine built with
+// Config.Timeout = 0 on routes without a time-out option (rec + http).  Scenarios for which the
+// specification names an isolated guard (field "sub") are, in addition, served through that guard
+// alone - transport "recover": handler.RecoverHandler directly around the scripted handler, on a recorder.
+//
 // and compares what the client sees (status, handler headers, handler chunks) with the set of
 // responses the specification allows.  Every expected value comes from the case file.
 //
@@ -37,6 +42,7 @@ import (
 	"testing"
 	"time"
 
+	"github.com/gotid/god/api/handler"
 	kit "github.com/gotid/god/internal/verifkit"
 	"github.com/gotid/god/lib/logx"
 	"github.com/gotid/god/lib/mathx"
@@ -97,6 +103,8 @@ type c02Drv struct {
 	rep    *kit.Reporter
 	mbs    []int64
 	main   *c02Env
+	nt     *c02Env      // engine built with Config.Timeout = 0: the chain without time-out guard
+	alone  http.Handler // handler.RecoverHandler around the scripted handler, nothing else
 	conns  map[string]*c02Env
 	cmu    sync.Mutex
 	slowMu sync.Mutex // serializes repeated real-time attempts after a stalled machine spoilt the concurrent ones
@@ -238,6 +246,10 @@ func (d *c02Drv) handle(w http.ResponseWriter, r *http.Request) {
 
 type c02Custom struct{ n int }
 
+type c02ErrType struct{ n int }
+
+func (e c02ErrType) Error() string { return "verif C02: scripted handler panic (custom error type)" }
+
 // c02PanicWith panics with the kind of value the script names; no prediction depends on it.
 func c02PanicWith(kind string) {
 	switch kind {
@@ -250,10 +262,17 @@ func c02PanicWith(kind string) {
 		var s []int
 		i := len(s) + 3
 		_ = s[i] // runtime error: index out of range
+	case "nilptr":
+		var p *c02Custom
+		p.n++ // runtime error: invalid memory address or nil pointer dereference
 	case "abort":
 		panic(http.ErrAbortHandler)
+	case "wrapped":
+		panic(fmt.Errorf("verif C02: scripted handler panic: %w", http.ErrAbortHandler))
 	case "custom":
 		panic(c02Custom{n: 2})
+	case "errtype":
+		panic(c02ErrType{n: 2})
 	}
 	panic("verif C02: unknown panic kind " + kind)
 }
@@ -421,7 +440,11 @@ func (d *c02Drv) do(transport string, env *c02Env, path string, sc *c02Scenario,
 	t0 := time.Now()
 	defer func() { o.elapsed = time.Since(t0) }()
 	switch transport {
-	case "rec":
+	case "rec", "recover":
+		var chain http.Handler = env.bound.router
+		if transport == "recover" {
+			chain = d.alone
+		}
 		ctx, cancel := context.WithCancel(context.Background())
 		defer cancel()
 		req := httptest.NewRequest(http.MethodPost, path, bytes.NewReader(body)).WithContext(ctx)
@@ -439,14 +462,14 @@ func (d *c02Drv) do(transport string, env *c02Env, path string, sc *c02Scenario,
 		served := make(chan any, 1)
 		go func() {
 			defer func() { served <- recover() }()
-			env.bound.router.ServeHTTP(rec, req)
+			chain.ServeHTTP(rec, req)
 		}()
 		hang := time.NewTimer(c02Hang)
 		select {
 		case escaped := <-served:
 			hang.Stop()
 			if escaped != nil {
-				return c02Obs{err: fmt.Sprintf("ESCAPED a panic escaped ServeHTTP of the whole chain: %v", escaped)}
+				return c02Obs{err: fmt.Sprintf("ESCAPED a panic escaped ServeHTTP of %s: %v", map[bool]string{false: "the whole chain", true: "handler.RecoverHandler"}[transport == "recover"], escaped)}
 			}
 		case <-hang.C:
 			return c02Obs{err: "HUNG no response within " + c02Hang.String() + c02Dump()}
@@ -602,21 +625,35 @@ func c02Class(m kit.M) string {
 	}
 }
 
+func c02HasTimeout(m kit.M) bool {
+	cfg, _ := m["cfg"].(map[string]any)
+	t, ok := cfg["timeout"]
+	return !ok || kit.Bool(t)
+}
+
 func (d *c02Drv) transportsOf(m kit.M) []string {
+	base := []string{"rec", "http", "api"}
 	if l := kit.List(m["transports"]); l != nil {
-		var out []string
+		base = base[:0]
 		for _, t := range l {
-			if kit.Str(t) == "api" && !d.useAPI {
-				continue
-			}
+			base = append(base, kit.Str(t))
+		}
+	}
+	var out []string
+	for _, t := range base {
+		// the started server exists for the engine with a time-out only
+		if t == "api" && (!d.useAPI || !c02HasTimeout(m)) {
+			continue
+		}
+		out = append(out, t)
+	}
+	// guards in isolation, as the specification names them for this scenario
+	if kit.Str(m["mode"]) == "script" && kit.Num(m["delay_ms"]) == 0 {
+		for _, t := range kit.List(m["sub"]) {
 			out = append(out, kit.Str(t))
 		}
-		return out
 	}
-	if d.useAPI {
-		return []string{"rec", "http", "api"}
-	}
-	return []string{"rec", "http"}
+	return out
 }
 
 // runScript serves one scenario on every transport.
@@ -632,6 +669,10 @@ func (d *c02Drv) runScript(c kit.Case, m kit.M) kit.Verdict {
 	cl := kit.Num(m["cl"])
 	delay := time.Duration(kit.Num(m["delay_ms"])) * time.Millisecond
 	cancel := class == "cancel"
+	env, cprefix := d.main, ""
+	if !c02HasTimeout(m) {
+		env, cprefix = d.nt, "nt-"
+	}
 	for _, tr := range d.transportsOf(m) {
 		if cancel && tr != "rec" {
 			d.rep.Count("skipped_cancel_on_"+tr, 1)
@@ -645,10 +686,12 @@ func (d *c02Drv) runScript(c kit.Case, m kit.M) kit.Verdict {
 		var why string
 		var sc *c02Scenario
 		run := func(a int) {
-			sc = d.newScenario(d.main)
+			sc = d.newScenario(env)
 			sc.steps, sc.term, sc.npre = steps, kit.Str(m["term"]), npre
 			tclass := "long"
 			switch {
+			case env == d.nt:
+				tclass = "cfg" // no route time-out, Config.Timeout = 0: bindRoute composes the chain without the time-out guard
 			case !kit.Bool(m["runs"]):
 				tclass = "long" // answered by a guard before the handler: no timer may interfere
 			case tr == "api" && (npre <= n || delay > 0):
@@ -667,7 +710,7 @@ func (d *c02Drv) runScript(c kit.Case, m kit.M) kit.Verdict {
 			if tr == "api" {
 				sc.delay = delay
 			}
-			o = d.do(tr, d.main, c02Path(tclass, mb), sc, cl, cancel, kit.Bool(m["runs"]))
+			o = d.do(tr, env, c02Path(tclass, mb), sc, cl, cancel, kit.Bool(m["runs"]))
 			d.reg.Delete(sc.id)
 			ok, why = c02Match(exp, o)
 			if ok && (sc.ran.Load() > 0) != kit.Bool(m["runs"]) {
@@ -738,7 +781,7 @@ func (d *c02Drv) runScript(c kit.Case, m kit.M) kit.Verdict {
 			return kit.Verdict{Case: c.Index, Infra: true, Msg: infra}
 		}
 		if ok {
-			d.rep.Count(tr+"."+class, 1)
+			d.rep.Count(tr+"."+cprefix+class, 1)
 			if class == "boundary" {
 				if o.status == 503 {
 					d.rep.Count("boundary.timeout", 1)
@@ -755,12 +798,12 @@ func (d *c02Drv) runScript(c kit.Case, m kit.M) kit.Verdict {
 				class = "intime-late"
 			}
 			v.OK = false
-			v.Key = "C02:rest:" + tr + ":" + class + ":" + why
+			v.Key = "C02:rest:" + tr + ":" + cprefix + class + ":" + why
 			if why == "panic-escaped" {
 				v.Key = "C02:rest:panic-escaped" // recorder path: nothing above the chain recovers
 			}
-			v.Msg = fmt.Sprintf("transport %s, %s scenario cl=%d script=%s term=%s npre=%d cause=%s delay=%v: client saw %s, specification allows %s",
-				tr, class, cl, kit.Canon(m["steps"]), kit.Str(m["term"]), npre, kit.Str(m["cause"]), delay, o, c02Want(exp))
+			v.Msg = fmt.Sprintf("transport %s%s, %s scenario cl=%d script=%s term=%s npre=%d cause=%s delay=%v: client saw %s, specification allows %s",
+				tr, map[string]string{"": "", "nt-": " (engine with Config.Timeout=0: no time-out guard)"}[cprefix], class, cl, kit.Canon(m["steps"]), kit.Str(m["term"]), npre, kit.Str(m["cause"]), delay, o, c02Want(exp))
 			return v
 		}
 	}
@@ -965,8 +1008,9 @@ func TestVerifC02(t *testing.T) {
 	d := &c02Drv{rep: rep, conns: map[string]*c02Env{}, useAPI: kit.Env("VERIF_C02_API", "1") == "1"}
 	d.client = &http.Client{Timeout: c02Hang, Transport: &http.Transport{DisableKeepAlives: true, DisableCompression: true}}
 
+	d.alone = handler.RecoverHandler(http.HandlerFunc(d.handle))
 	var mine []kit.Case
-	mbSet := map[int64]bool{}
+	mbSet, ntSet := map[int64]bool{}, map[int64]bool{}
 	for _, c := range cases {
 		if c.Index%shards != shard {
 			continue
@@ -974,7 +1018,23 @@ func TestVerifC02(t *testing.T) {
 		mine = append(mine, c)
 		m := c.Steps[0]
 		if kit.Str(m["mode"]) != "conns" {
-			mbSet[int64(kit.Num(m["cfg"].(map[string]any)["maxBytes"]))] = true
+			mb := int64(kit.Num(m["cfg"].(map[string]any)["maxBytes"]))
+			if c02HasTimeout(m) {
+				mbSet[mb] = true
+			} else {
+				ntSet[mb] = true
+			}
+		}
+	}
+	if len(ntSet) > 0 {
+		var mbs []int64
+		for mb := range ntSet {
+			mbs = append(mbs, mb)
+		}
+		sort.Slice(mbs, func(i, j int) bool { return mbs[i] < mbs[j] })
+		if d.nt, err = d.newEnv("no-timeout", 0, 10000, mbs, false); err != nil {
+			rep.Put(kit.Verdict{Case: -1, Infra: true, Msg: err.Error()})
+			return
 		}
 	}
 	for mb := range mbSet {
